@@ -44,7 +44,14 @@ static KSI_LIST(KSI_HashChainLink) *mk_links(char *spec, int *err) {
 			KSI_Integer_new(ctx, strtoull(f[1], NULL, 10), &lc);
 			KSI_HashChainLink_setLevelCorrection(l, lc);
 		}
-		if (f[2][0] == 'i') {
+		if (f[2][0] == 'x' || f[2][0] == 'y') {
+			/* a link given two kinds of sibling through the setters: an imprint (x) or a legacy id (y), and a metadata record */
+			KSI_MetaDataElement *m = NULL; KSI_Utf8String *cid = NULL;
+			if (f[2][0] == 'x') { KSI_DataHash *h = NULL; if (mk_hash(f[3], &h) != KSI_OK) { *err = 2; KSI_HashChainLink_free(l); break; } KSI_HashChainLink_setImprint(l, h); }
+			else { size_t n; unsigned char *b = unhex(f[3], &n); KSI_OctetString *o = NULL; KSI_OctetString_new(ctx, b, n, &o); free(b); KSI_HashChainLink_setLegacyId(l, o); }
+			KSI_MetaDataElement_new(ctx, &m); KSI_Utf8String_new(ctx, "zz", 3, &cid); KSI_MetaDataElement_setClientId(m, cid);
+			KSI_HashChainLink_setMetaData(l, m);
+		} else if (f[2][0] == 'i') {
 			KSI_DataHash *h = NULL;
 			if (mk_hash(f[3], &h) != KSI_OK) { *err = 2; KSI_HashChainLink_free(l); break; }
 			KSI_HashChainLink_setImprint(l, h);
@@ -102,7 +109,7 @@ static void do_line(char *work, const char *orig) {
 		int r = KSI_DataHash_create(ctx, b, len, (KSI_HashAlgorithm)atoi(w[1]), &h);
 		printf("%d ", r); put_hash(r == KSI_OK ? h : NULL);
 		KSI_DataHash_free(h); free(b);
-	} else if (n == 5 && !strcmp(w[0], "agg")) {
+	} else if (n == 5 && (!strcmp(w[0], "agg") || !strcmp(w[0], "aggx"))) {
 		KSI_DataHash *in = NULL, *out = NULL; int err, end = -1, r;
 		KSI_LIST(KSI_HashChainLink) *lst;
 		if (mk_hash(w[3], &in) != KSI_OK) { printf("BAD-INPUT-HASH"); return; }
@@ -111,7 +118,17 @@ static void do_line(char *work, const char *orig) {
 		r = KSI_HashChain_aggregate(ctx, lst, in, atoi(w[2]), (KSI_HashAlgorithm)atoi(w[1]), &end, &out);
 		if (r == KSI_OK) { printf("0 %d ", end); put_hash(out); } else printf("%d - -", r);
 		KSI_DataHash_free(out); KSI_DataHash_free(in); KSI_HashChainLinkList_free(lst);
-	} else if (n == 6 && !strcmp(w[0], "aggc")) {
+	} else if (n == 7 && !strcmp(w[0], "aggr")) {
+		/* as agg; the two last words are the generator's reference (level, root), ignored here */
+		KSI_DataHash *in = NULL, *out = NULL; int err, end = -1, r;
+		KSI_LIST(KSI_HashChainLink) *lst;
+		if (mk_hash(w[3], &in) != KSI_OK) { printf("BAD-INPUT-HASH"); return; }
+		lst = mk_links(w[4], &err);
+		if (lst == NULL) { printf("BAD-LINKS-%d", err); KSI_DataHash_free(in); return; }
+		r = KSI_HashChain_aggregate(ctx, lst, in, atoi(w[2]), (KSI_HashAlgorithm)atoi(w[1]), &end, &out);
+		if (r == KSI_OK) { printf("0 %d ", end); put_hash(out); } else printf("%d - -", r);
+		KSI_DataHash_free(out); KSI_DataHash_free(in); KSI_HashChainLinkList_free(lst);
+	} else if ((n == 6 && !strcmp(w[0], "aggc")) || (n == 7 && !strcmp(w[0], "agg3"))) {
 		KSI_AggregationHashChain *c = NULL; KSI_DataHash *in = NULL; KSI_Integer *alg = NULL; int err, k;
 		KSI_LIST(KSI_HashChainLink) *lst;
 		if (mk_hash(w[2], &in) != KSI_OK) { printf("BAD-INPUT-HASH"); return; }
@@ -122,11 +139,11 @@ static void do_line(char *work, const char *orig) {
 		KSI_AggregationHashChain_setAggrHashId(c, alg);
 		KSI_AggregationHashChain_setInputHash(c, in);
 		KSI_AggregationHashChain_setChain(c, lst);
-		for (k = 4; k <= 5; k++) {
+		for (k = 4; k < n; k++) {
 			KSI_DataHash *out = NULL; int end = -1;
 			int r = KSI_AggregationHashChain_aggregate(c, atoi(w[k]), &end, &out);
 			if (r == KSI_OK) { printf("0 %d ", end); put_hash(out); } else printf("%d - -", r);
-			if (k == 4) putchar(' ');
+			if (k + 1 < n) putchar(' ');
 			KSI_DataHash_free(out);
 		}
 		KSI_AggregationHashChain_free(c);
